@@ -300,7 +300,88 @@ static int cmd_c20nt(const Args& a) {
   return 0;
 }
 
+
+// ---------------------------------------------------------------- near-collinear paths with large coordinates
+// wire format of spec/C18BigInt.tla: [sign, 12-bit limbs little-endian]
+static std::string jbig(int64_t v) {
+  std::string r = "["; unsigned __int128 m = v < 0 ? (unsigned __int128)(-(i128)v) : (unsigned __int128)v;
+  r += v == 0 ? "0" : v > 0 ? "1" : "-1";
+  while (m) { r += "," + std::to_string((unsigned)(m & 0xFFF)); m >>= 12; }
+  return r + "]";
+}
+static std::string jbigpath(const Path64& p) { return jarr(p.begin(), p.end(), [](const Point64& q) { return "[" + jbig(q.x) + "," + jbig(q.y) + "]"; }); }
+static int64_t egcd(int64_t a, int64_t b, i128& x, i128& y) {   // a*x + b*y = g > 0 (g = 0 only for a = b = 0)
+  if (b == 0) { x = a < 0 ? -1 : 1; y = 0; return a < 0 ? -a : a; }
+  i128 x1, y1; int64_t g = egcd(b, a % b, x1, y1); x = y1; y = x1 - (i128)(a / b) * y1; return g;
+}
+static int64_t big_comp(Rng& r, int lo, int hi) { int e = (int)r.range(lo, hi); int64_t v = ((int64_t)1 << e) + r.range(0, ((int64_t)1 << e) - 1); return r.coin() ? v : -v; }
+static Point64 big_dir(Rng& r, int lo, int hi) {
+  for (;;) { int64_t x = big_comp(r, lo, hi), y = r.range(0, 9) == 0 ? 0 : big_comp(r, lo, hi); if (r.range(0, 19) == 0) std::swap(x, y); if (x || y) return Point64(x, y); }
+}
+// next edge v with exact cross product u x v = k0 * gcd(u) (k0 = 0: straight on)
+static bool near_edge(Rng& r, const Point64& u, int64_t k0, Point64& v) {
+  i128 a, b; int64_t g = egcd(u.x, u.y, a, b); if (g == 0) return false;
+  if (k0 == 0) { int64_t t = r.range(1, 3); v = Point64(u.x / g * t, u.y / g * t); if (r.range(0, 2) == 0) v = u; return true; }
+  i128 wx = -b, wy = a;                                   // u.x * wy - u.y * wx = g
+  i128 uu = (i128)u.x * u.x + (i128)u.y * u.y, q = ((i128)wx * u.x + (i128)wy * u.y) / uu; wx -= q * u.x; wy -= q * u.y;   // |w| <~ |u|
+  i128 t = (k0 < 0 ? -k0 : k0) + r.range(1, 2);
+  i128 vx = t * u.x + (i128)k0 * wx, vy = t * u.y + (i128)k0 * wy;
+  const i128 lim = (i128)1 << 46; if (vx > lim || vx < -lim || vy > lim || vy < -lim) return false;
+  v = Point64((int64_t)vx, (int64_t)vy); return true;
+}
+static Path64 gen_near(Rng& r) {
+  static const std::vector<int64_t> KS = {0, 0, 1, -1, 1, -1, 2, -2, 3, -3, 5, -7, 17, -64, 1000, -100000};
+  for (;;) {
+    int lo = (int)r.range(26, 38), hi = (int)r.range(lo, 40), n = (int)r.range(3, 7);
+    Path64 p; p.emplace_back(r.range(0, 3) ? r.range(-(1LL << 20), 1LL << 20) : 0, r.range(0, 3) ? r.range(-(1LL << 20), 1LL << 20) : 0);
+    Point64 u = big_dir(r, lo, hi); p.emplace_back(p[0].x + u.x, p[0].y + u.y);
+    bool ok = true;
+    while ((int)p.size() < n && ok) {
+      Point64 v;
+      if (r.range(0, 4) == 0) v = big_dir(r, lo, hi);                      // an ordinary (large) corner
+      else if (!near_edge(r, u, r.pick(KS), v)) { ok = false; break; }
+      Point64 q(p.back().x + v.x, p.back().y + v.y);
+      if (std::llabs(q.x) > (1LL << 50) || std::llabs(q.y) > (1LL << 50)) { ok = false; break; }
+      p.push_back(q); u = v;
+    }
+    if (ok && (int)p.size() >= 3) return p;
+  }
+}
+// vh c20big --n N --seed S --out file : TrimCollinear (Path64 and the PathD overload, closed and open) on near-collinear large paths
+static int cmd_c20big(const Args& a) {
+  install_crash_handler();
+  Rng r((uint64_t)argi(a, "seed", 1)); long long n = argi(a, "n", 100), calls = 0, same = 0, diff = 0, id = 0;
+  std::ofstream os(args(a, "out", "/dev/stdout"));
+  std::vector<Path64> fixed = { {{0, 0}, {(1LL << 30) + 1, 1LL << 30}, {(1LL << 31) + 3, (1LL << 31) + 1}},
+                                {{5, -7}, {(1LL << 30) + 6, (1LL << 30) - 7}, {(1LL << 31) + 8, (1LL << 31) - 6}, {(1LL << 31) + 8, -(1LL << 33)}},
+                                {{0, 0}, {(1LL << 40) + 1, 1LL << 40}, {(1LL << 41) + 3, (1LL << 41) + 1}, {-(1LL << 39), (1LL << 41)}} };
+  std::ifstream in(args(a, "in", "")); std::string line; std::vector<Path64> given;
+  if (a.count("in")) while (std::getline(in, line)) if (!line.empty()) given.push_back(path_from(jparse(line)["p"]));
+  const long long total = a.count("in") ? (long long)given.size() : n;
+  for (long long i = 0; i < total; ++i) {
+    Path64 p = a.count("in") ? given[i] : (i < (long long)fixed.size() && argi(a, "fixed", 1) ? fixed[i] : gen_near(r));
+    if (!a.count("in") && r.coin()) std::rotate(p.begin(), p.begin() + r.range(0, (int64_t)p.size() - 1), p.end());   // move the wrap-around point
+    if (!a.count("in") && r.range(0, 3) == 0) std::reverse(p.begin(), p.end());
+    g_cur = &p; g_emb = 0;
+    for (int open = 0; open < 2; ++open) {
+      Mon mon("TrimCollinear(large near-collinear)", open ? "open" : "closed");
+      Path64 out = TrimCollinear(p, open != 0), out2 = TrimCollinear(out, open != 0);
+      auto emit = [&](const char* v, const Path64& o, const Path64& o2) {
+        os << "{\"e\":\"Big\",\"id\":" << ++id << ",\"c\":" << (open ? 0 : 1) << ",\"v\":" << jstr(v) << ",\"p\":" << jbigpath(p)
+           << ",\"out\":" << jbigpath(o) << ",\"out2\":" << jbigpath(o2) << "}\n"; ++calls; };
+      emit("64", out, out2);
+      PathD d = TrimCollinear(to_d(p), 0, open != 0); Path64 b; bool okd = from_d(d, b);
+      if (okd && b == out) ++same;
+      else { ++diff; PathD d2 = TrimCollinear(d, 0, open != 0); Path64 b2; from_d(d2, b2); emit("D0", okd ? b : Path64{{1LL << 62, 1LL << 62}}, b2); }
+    }
+    g_cur = nullptr;
+  }
+  fprintf(stderr, "{\"paths\":%lld,\"calls\":%lld,\"variants_same\":%lld,\"variants_diff\":%lld,\"nontrivial\":0}\n", total, calls, same, diff);
+  return 0;
+}
+
 static Reg r1("c20", cmd_c20);
+static Reg r4("c20big", cmd_c20big);
 static Reg r3("c20nt", cmd_c20nt);
 static Reg r2("c20ell", cmd_c20ell);
 }  // namespace
